@@ -491,6 +491,7 @@ def source_sites(F, f, ret_owned, mv):
 # --------------------------------------------------------------------------- rules
 
 def rule_fd_path(ctx, cfg, F, model, rule_name="FD-PATH", rule_text=None):
+    F = F.nodrop() if hasattr(F, "nodrop") else F
     R = ctx.rule(rule_name, rule_text or "every raw descriptor created or received in a function of platform::unix is, on every "
                  "normal path to a return, released exactly once: closed, moved into an owning type, handed to a "
                  "function that takes ownership, inserted into the set's table, or returned; '< 0' edges carry no obligation")
@@ -696,6 +697,7 @@ def _exit_desc(f, path):
 
 
 def rule_fd_drop(ctx, cfg, F, model, rule_name="FD-DROP", rule_text=None):
+    F = F.nodrop() if hasattr(F, "nodrop") else F
     R = ctx.rule(rule_name, rule_text or "every type with an owning descriptor field has a Drop impl that, on every normal path, "
                  "closes that field exactly once or leaves through a test of the field against the sentinel")
     own_direct, own_containers, summ, ret_owned, mv = model
@@ -753,6 +755,7 @@ def rule_fd_drop(ctx, cfg, F, model, rule_name="FD-DROP", rule_text=None):
 
 
 def rule_fd_move(ctx, cfg, F, model):
+    F = F.nodrop() if hasattr(F, "nodrop") else F
     R = ctx.rule("FD-MOVE", "a read of an owning descriptor field is moving only if the sentinel is stored on the same path; "
                  "values that are not owned (borrowing reads, results of borrowing accessors) never reach a releasing site")
     own_direct, own_containers, summ, ret_owned, mv = model
@@ -860,6 +863,7 @@ def _classify_released(F, f, tr, operand, model, site_block):
 
 
 def rule_close_owned(ctx, cfg, F, model):
+    F = F.nodrop() if hasattr(F, "nodrop") else F
     R = ctx.rule("FD-CLOSE-OWNED", "every libc::close closes (a) an owning field of self inside that type's Drop, (b) a value "
                  "the typestate analysis holds as owned, or (c) the descriptor of a set entry whose removal from the table dominates the close")
     own_direct, own_containers, summ, ret_owned, mv = model
@@ -948,7 +952,90 @@ def const_eval(e):
     return None
 
 
+
+def possible_consts(f, operand, limit=32):
+    """every integer value a flags-like operand can hold (flow-insensitive over its definitions: constants, copies, bitwise/arith
+    combinations of such); None if some definition is not understood"""
+    c = op_const(operand)
+    if c is None and operand.get("k") == "c" and "pv" in operand:
+        c = operand["pv"]
+    if c is not None:
+        return {c}
+    l0 = op_local(operand)
+    if l0 is None or operand["pl"].get("p"):
+        return None
+    vals = {}
+    locs = set()
+    work = [l0]
+    while work:
+        l = work.pop()
+        if l in locs:
+            continue
+        locs.add(l)
+        for (b, si, node) in f.defs().get(l, []):
+            if f.is_cleanup(b):
+                continue
+            if si is None or node["lhs"].get("p"):
+                return None
+            for o in node["rv"].get("a", []):
+                if op_local(o) is not None:
+                    if o["pl"].get("p"):
+                        if not (node["rv"]["r"] == "use" and False):
+                            pass
+                    work.append(op_local(o))
+    if any(1 <= l <= f.argc for l in locs):
+        return None
+    for l in locs:
+        vals[l] = set()
+
+    def ev(o):
+        c = op_const(o)
+        if c is None and o.get("k") == "c" and "pv" in o:
+            c = o["pv"]
+        if c is not None:
+            return {c}
+        l = op_local(o)
+        if l is None:
+            return None
+        pr = [e for e in o["pl"].get("p", []) if e != "*"]
+        if pr and not (len(pr) == 1 and isinstance(pr[0], dict) and pr[0].get("f") == 0):
+            return None          # only `.0` of a checked-arithmetic pair is followed
+        return vals.get(l, set())
+    for _ in range(8):
+        changed = False
+        for l in locs:
+            for (b, si, node) in f.defs().get(l, []):
+                if f.is_cleanup(b):
+                    continue
+                rv = node["rv"]
+                new = None
+                if rv["r"] in ("use", "cast"):
+                    new = ev(rv["a"][0])
+                elif rv["r"] == "bin":
+                    x, y = ev(rv["a"][0]), ev(rv["a"][1])
+                    if x is None or y is None:
+                        return None
+                    op = rv["op"].replace("WithOverflow", "").replace("Unchecked", "")
+                    fn_ = {"BitOr": lambda a, b: a | b, "BitAnd": lambda a, b: a & b, "BitXor": lambda a, b: a ^ b, "Add": lambda a, b: a + b, "Sub": lambda a, b: a - b}.get(op)
+                    if fn_ is None:
+                        return None
+                    new = {fn_(a, b) for a in x for b in y}
+                else:
+                    return None
+                if new is None:
+                    return None
+                if not new <= vals[l]:
+                    vals[l] |= new
+                    changed = True
+                    if len(vals[l]) > limit:
+                        return None
+        if not changed:
+            break
+    return vals[l0] or None
+
+
 def rule_cloexec(ctx, cfg, F, model):
+    F = F.nodrop() if hasattr(F, "nodrop") else F
     R = ctx.rule("CLOEXEC", "every descriptor-creating call sets close-on-exec atomically: socket/socketpair type includes "
                  "SOCK_CLOEXEC, recvmsg flags include MSG_CMSG_CLOEXEC, memfd_create flags include MFD_CLOEXEC, accept4/dup3/"
                  "F_DUPFD_CLOEXEC variants; plain accept/dup need fcntl(F_SETFD, FD_CLOEXEC) on every path (shm_open: glibc sets it)")
@@ -1017,8 +1104,16 @@ def rule_cloexec(ctx, cfg, F, model):
                 continue
             v = const_eval(ex.of_operand(t["args"][ai]))
             if v is None:
-                R.violate("%s:%s:flags-not-constant" % (f.path, short), "flags operand of %s is not a compile-time constant; cannot show %s is set" % (short, bname),
-                          f.path, f.loc(b), config=cfg)
+                # a flags variable: every value it can take must carry the bit
+                pv = possible_consts(f, t["args"][ai])
+                if pv is None:
+                    R.violate("%s:%s:flags-not-constant" % (f.path, short), "flags operand of %s is not a compile-time constant; cannot show %s is set" % (short, bname),
+                              f.path, f.loc(b), config=cfg)
+                elif all(x & bit for x in pv):
+                    R.ok("%s in %s has %s in every value its flags variable can take (%s)" % (short, f.path, bname, ", ".join("%#x" % x for x in sorted(pv))), f.loc(b), cfg)
+                else:
+                    R.violate("%s:%s:missing-%s" % (f.path, short, bname), "%s in %s can be called without %s (its flags variable can be %s): a descriptor received that way is inherited across exec" % (
+                        short, f.path, bname, ", ".join("%#x" % x for x in sorted(pv) if not x & bit)), f.path, f.loc(b), config=cfg)
             elif v & bit:
                 R.ok("%s in %s has %s (operand = %#x)" % (short, f.path, bname, v), f.loc(b), cfg)
             else:
@@ -1058,6 +1153,7 @@ def rule_no_forget(ctx, cfg, F):
 
 
 def build_model(F):
+    F = F.nodrop() if hasattr(F, "nodrop") else F
     own_direct, own_containers = owning_fields(F)
     summ = compute_summaries(F, own_direct, own_containers)
     ret_owned, mv = returns_owned(F, own_direct, own_containers, summ)
